@@ -187,7 +187,9 @@ fn run_check(id: &str, tier: &str) -> i32 {
             return 2;
         }
     };
-    let stages: Vec<&Stage> = check.stages.iter().filter(|s| s.tiers & if thorough { 2 } else { 1 } != 0).collect();
+    // MC_ONLY_STAGE=<substring>: development aid, runs only the matching stages (never set by ./check)
+    let only = std::env::var("MC_ONLY_STAGE").ok();
+    let stages: Vec<&Stage> = check.stages.iter().filter(|s| s.tiers & if thorough { 2 } else { 1 } != 0).filter(|s| only.as_ref().map_or(true, |o| s.space.contains(o.as_str()))).collect();
     let mut results: Vec<ExploreResult> = Vec::new();
     for (k, st) in stages.iter().enumerate() {
         // remaining budget is shared among the remaining stages
